@@ -53,6 +53,9 @@ ASSUMPTIONS = [
     "sym shards: the module global `math` of type_checker.py is wrapped so that math.isnan(<int or Fraction>) answers "
     "False without converting (CrossHair would realise the value); exact for magnitudes below 2^1024",
     "sym shards: hash-consing tables keyed syntactically (S2'); node sharing is not the subject here",
+    "sym shards with '/': under the pinned real-based float model int / int is the exact quotient, so these shards decide "
+    "the interval LOGIC of walk_div (which bounds, which signs, which None) for all operand values; the ROUNDING of "
+    "the float division is decided separately and exactly in layer 2",
     "layer 2 encodes: int / int  as  fp.div(RNE, to_fp(RNE, l), to_fp(RNE, r)) on Float64 (equal to Python's correctly "
     "rounded quotient because |l|, |r| <= 2^53 are exactly representable), float(+-inf) / int by sign, Fraction(float) "
     "as fp.to_real, Fraction(int[, int]) and Fraction arithmetic exactly in rationals, min/max/comparisons by forking "
@@ -285,10 +288,10 @@ def h_interval(ctx, shape, combos=None, kinds=None, ops=None, op_lists=None, den
     ctx.note("skeleton", skel + " " + ",".join(ks))
     ctx.check(t.is_int_type() or t.is_real_type(), "not-numeric", f"{skel} over {ks}: inferred type is not numeric")
     has_div = "/" in skel
+    ctx.witness("typed")
     ctx.forall(lambda: _interval_violation(e, t), None, "unsound-interval:" + ("div" if has_div else "nodiv"),
                f"skeleton {skel} over leaf kinds {ks}: a value of the expression (leaves within their declared types) lies "
                f"outside the inferred type")
-    ctx.witness("typed")
 
 
 # ---------------------------------------------------------------------------------------------------------------
@@ -804,9 +807,9 @@ def h_divconst(ctx, dividend, mag_bits=53, small=None, real_dividend=False):
         return z3.And(eng.pc + [z3.Or(cases)]), qv
 
     ctx.note("encoding", "float" if any(isinstance(b, _P) and _has_fp(b.term) for b in (rl, ru)) else "exact")
+    ctx.witness("div-path-" + ctx.notes["encoding"])
     ctx.forall(build, real_verdict, "div-interval-unsound",
                "the inferred type of a division by a non-zero integer constant does not contain the exact quotient")
-    ctx.witness("div-path")
 
 
 def _has_fp(term):
@@ -933,13 +936,15 @@ def shards(tier, seed):
     sym("bin-plus-minus", "bin", c2, [["+"], ["-"]])
     for nm, firsts in (("Ib", ["Ib"]), ("half", ["Il", "Iu"]), ("In-c-q", ["In", "c", "q"]), ("Rb", ["Rb"])):
         sym(f"bin-times-{nm}", "bin", [c for c in c2 if c[0] in firsts], [["*"]])
+    INTK = ["Ib", "Il", "Iu", "In", "c"]
+    sym("bin-div", "bin", _sym_combos(2, INTK), [["/"]])
     # ---- layer 1, concrete bounds, every 3-node tree over the full pool (both tiers)
     conc("bin-plus-minus", "bin", K, [["+"], ["-"]])
     conc("bin-times-div", "bin", K, [["*"], ["/"]])
     if quick:
         slim = [["Ib", "Ib", "c"], ["c", "Ib", "Ib"], ["Ib", "c", "Il"], ["Iu", "Ib", "Ib"]]
         for shape in ("left", "right"):
-            sym(f"{shape}-top-plus-minus", shape, slim, [p for p in PAIRS if p[0] in "+-"])
+            sym(f"{shape}-top-plus-minus", shape, slim[:3], [p for p in PAIRS if p[0] in "+-"])
             sym(f"{shape}-top-times", shape, slim, [p for p in PAIRS if p[0] == "*"])
             conc(f"{shape}-top-plus-minus", shape, POOL7, [p for p in PAIRS4 if p[0] in "+-"])
             conc(f"{shape}-top-times-div", shape, POOL7, [p for p in PAIRS4 if p[0] in "*/"])
@@ -950,7 +955,6 @@ def shards(tier, seed):
         conc("nary", "nary3", POOL7 + ["k0"], [["+"], ["*"]])
         div("const-small", dividend="const", small=1000)
         div("const-2^53", dividend="const")
-        div("interval-small", dividend="interval", small=1000)
         div("lower-small", dividend="lower", small=1000)
     else:
         I4 = ["Ib", "Il", "Iu", "c"]
@@ -958,6 +962,10 @@ def shards(tier, seed):
             for shape in ("left", "right"):
                 sym(f"{shape}-{NM[p[0]]}-{NM[p[1]]}-int", shape, _sym_combos(3, I4 + ["In"]), [p])
                 sym(f"{shape}-{NM[p[0]]}-{NM[p[1]]}-real", shape, [c for c in _sym_combos(3, ["Ib", "Rb", "c", "q"]) if "Rb" in c or "q" in c], [p])
+        for p in PAIRS4:
+            if "/" in p:
+                for shape in ("left", "right"):
+                    sym(f"{shape}-{NM[p[0]]}-{NM[p[1]]}-int", shape, _sym_combos(3, ["Ib", "Iu", "c"]), [p])
         sym("bin-halves", "bin", _sym_combos(2, ["Ib", "c", "Rb", "q"]), [["+"], ["-"], ["*"]], den=2)
         sym("nary3-plus", "nary3", _sym_combos(3, SYM_KINDS), [["+"]])
         for k0 in I4:
